@@ -408,6 +408,7 @@ def cut_loop(eng, node, st, fid, spec, kind, iterv=None):
             st.assume(V.cmp("==", V.mod(V.sub(i, lo), step), 0))
     for label, val in eval_clauses(eng, st, fid, inv):
         st.assume(val)
+        st.name_hyp(f"inv:{lab}.{label}", val)
 
     # --- 4. body preserves the invariant -------------------------------------------
     sb = st
